@@ -34,6 +34,7 @@ MIN_REACH = {
     "sampler_tables_compared": {"quick": 10, "thorough": 200},
     "fresh_process_steps": {"quick": 8, "thorough": 150},
     "conflicts_agreed": {"quick": 2, "thorough": 40},
+    "resown_from_reloaded_crop": {"quick": 20, "thorough": 250},
 }
 TIME_BUDGET = {"quick": 400, "thorough": 3400}
 CASE_TIMEOUT = {"quick": 300, "thorough": 600}
@@ -65,7 +66,9 @@ def cases(ctx):
              "pre": rng.random() < 0.75, "pre_version": rng.choice([0, 1, 1]),
              "reload": rng.random() < 0.6, "fresh": (i % 13 == 5) and farmer != "sampler",
              "engine": rng.choice(["h5netcdf", "joblib"]), "has_ext": rng.random() < 0.5,
-             "n_samples": rng.randint(1, 9), "rseed": rng.randint(0, 10 ** 9), "idx": i}
+             "n_samples": rng.randint(1, 9), "rseed": rng.randint(0, 10 ** 9), "idx": i,
+             # "another session": the crop (and its farmer) is re-created by name and the work is sown AGAIN from it
+             "resow_reloaded": rng.random() < 0.3}
         if c["fresh"]:
             c["to_df"] = False        # the fresh-process reaper uses Crop.reap(), which returns the Dataset
         r = rng.random()
@@ -188,6 +191,17 @@ def run_case(ctx, case):
             else:
                 shuffle_at_sow = case["shuffle"] if (w["mode"] == "grid" or w.get("via") == "sow_combos") and case["shuffle"] else None
                 cropkit.sow(crop, w, shuffle_at_sow=shuffle_at_sow)
+            if case.get("resow_reloaded"):
+                crop = xyzpy.Crop(name=name, parent_dir=tmp)        # farmer un-pickled from the settings file
+                if case["shuffle"]:
+                    crop.shuffle = case["shuffle"]
+                if farmer == "sampler":
+                    np.random.seed(case["rseed"] % (2 ** 32))
+                    crop.sow_samples(case["n_samples"], verbosity=0)
+                else:
+                    cropkit.sow(crop, w, shuffle_at_sow=shuffle_at_sow)
+                f1 = crop.farmer
+                ctx.count("resown_from_reloaded_crop")
     except Exception as e:
         ctx.violation(case, "setting up / sowing raised %r" % (e,), dict(sig, step="sow", **exc_sig(e)))
         ctx.rmtree(tmp)
